@@ -1,6 +1,8 @@
 ------------------------------ MODULE C14Trace ------------------------------
 (* Trace spec for C14.  Every line is one observation of the REAL code:             *)
 (*   tree     an abstract property tree pushed through a real params(ptree)         *)
+(*            [family env:<n>: after omp_set_num_threads(n) in the same process;    *)
+(*            members are coded relative to the defaults constructed at that time]  *)
 (*            constructor: members read back (obj), keys reported through           *)
 (*            AMGCL_PARAM_UNKNOWN (rep), the tree exported by params::get (out)     *)
 (*   schema   per component: the behavioural import / export / check lists, the     *)
@@ -13,6 +15,10 @@
 (*   mequiv   the same for the distributed (MPI) classes and runtime::mpi wrappers,  *)
 (*            on 1, 2 and 3 ranks                                                   *)
 (*   equivp   a class of runtime::preconditioner against the C++ type it names      *)
+(*   rtctor   a run-time wrapper constructed twice from one non-const tree of the    *)
+(*            caller: the tree is unchanged, both objects have the same type        *)
+(*   reimport the parameters stored in a run-time composition (get_params) build    *)
+(*            the same solver again                                                 *)
 (*   rebuilt  a typed amg after rebuild(2A) against a typed amg freshly built from   *)
 (*            2A with the same parameters (scaling keeps the transfer operators)    *)
 (*   equivb   block-valued backend: the as_scalar / direct branch of the run-time   *)
@@ -104,6 +110,10 @@ Clauses(r) ==
                                <<"known-not-reported", r.rep = <<>> >> >>
       [] r.k = "equivp"  -> << <<"preconditioner-class=type", Same(r, "_t", "_r")>>,
                                <<"runtime=compile-time-after-rebuild", SameRebuilt(r, "_t", "_r")>> >>
+      [] r.k = "rtctor"  -> << <<"caller-tree-unchanged", ~r.threw /\ r.unchanged>>,
+                               <<"same-type-twice", ~r.threw /\ r.same_type>> >>
+      [] r.k = "reimport" -> << <<"export-reimport-same-solver", Same(r, "_t", "_r") /\ SameRebuilt(r, "_t", "_r")
+                                                                  /\ r.exported_type = r.s>> >>
       [] r.k = "rebuilt" -> << <<"parameters-take-effect-after-rebuild",
                                  ~r.threw /\ r.rpx_lo = r.fpx_lo /\ r.rpx_hi = r.fpx_hi>> >>
       [] r.k = "equivb"  -> << <<"block-runtime=compile-time", Same(r, "_t", "_r")>>,
